@@ -252,9 +252,15 @@ def variant(rng, case):
     mcd_runs = 1 + 4.5 * 1e-8 * float(Fraction(c["timest"])) / float(lmin * lmin)
     if r < 0.4 and n * c["shifts"] * mcd_runs > 40000:
         r = 0.4 + 0.6 * rng.random()
+    if r >= 0.86:
+        return interlayer_variant(rng)
     if r < 0.25:
         c["mcd"] = {"dw": rng.choice(["1e-9", "0.3e-9", "2e-9"]), "por": rng.choice(["0.3", "1", "0.1"])}
         c["variant"] = "mcd"
+        if rng.random() < 0.4:
+            # non-uniform porosity (tortuosity factor por^n differs per cell)
+            c["pors"] = [rng.choice(["0.1", "0.2", "0.3", "0.45", "0.6"]) for _ in range(n)]
+            c["variant"] = "mcd_pors"
     elif r < 0.4:
         c["mcd"] = {"dw": "1e-9", "por": rng.choice(["0.3", "1"])}
         c["implicit"] = {"maxmixf": rng.choice(["1", "3", "10"])}
@@ -295,6 +301,10 @@ def variant(rng, case):
     else:
         c["solids"] = rng.choice(["exchange", "calcite"])
         c["variant"] = c["solids"]
+        if c["solids"] == "exchange" and rng.random() < 0.6:
+            # non-uniform exchanger amounts, each equilibrated with its own cell
+            c["exch"] = {str(i): rng.choice(["0.0005", "0.001", "0.002", "0.005", "0.02"]) for i in range(1, n + 1)}
+            c["variant"] = "exchange_nonuniform"
         if rng.random() < 0.4:
             # ADVECTION keyword with reactive solids
             c["kind"] = "advection"
@@ -302,6 +312,51 @@ def variant(rng, case):
             c["sols"] = {k: v for k, v in c["sols"].items() if int(k) <= n}
             c["sols"].setdefault("0", solution(rng, 1, True, False))
     return c
+
+
+def interlayer_variant(rng, partial=None):
+    """closed (mostly) diffusion-only column with multicomponent + interlayer diffusion and an exchanger X whose amount
+    differs between neighbouring cells (rc1 != rc2 in find_J); `partial`: some cells without exchanger (they get the
+    engine's automatic 2e-10 mol X)"""
+    n = rng.choice([2, 3, 4, 5, 6, 8])
+    shifts = rng.choice([1, 2, 3, 5, 6])
+    L = rng.choice(["0.005", "0.01", "0.02", "0.05"])
+    timest = rng.choice(["600", "3600", "7200", "86400"])
+    while 4.5e-8 * float(timest) / float(L) ** 2 * n * shifts > 20000:
+        timest = _fracdec(Fraction(timest) / 4)
+    cs = rng.choice([1, 1, 10])
+    sols = {}
+    base = solution(rng, cs, True, False)
+    for i in range(1, n + 1):
+        if rng.random() < 0.4:
+            base = solution(rng, cs, True, False)
+        sols[str(i)] = base
+    amounts = ["0.02", "0.05", "0.1", "0.2", "0.5"]
+    exch = {}
+    a = rng.choice(amounts)
+    for i in range(1, n + 1):
+        if rng.random() < 0.5:
+            a = rng.choice(amounts)
+        exch[str(i)] = a
+    if len(set(exch.values())) == 1 and n > 1:
+        exch[str(rng.randint(1, n))] = rng.choice([x for x in amounts if x != a])
+    if partial is None:
+        partial = rng.random() < 0.15
+    if partial and n > 2:
+        k = rng.randint(1, n - 1)
+        for i in (range(1, k + 1) if rng.random() < 0.5 else range(n - k + 1, n + 1)):
+            exch.pop(str(i), None)
+    flow, bc = "diffusion_only", [2, 2]
+    if rng.random() < 0.2:
+        flow, bc = rng.choice(["forward", "back"]), [3, 3]
+        sols["0"] = solution(rng, cs, True, False)
+        sols[str(n + 1)] = solution(rng, cs, True, False)
+    return {"kind": "transport", "n": n, "shifts": shifts, "flow": flow, "bc": bc, "lengths": [L], "disps": ["0"],
+            "diffc": "0", "timest": timest, "correct_disp": False, "stag": None,
+            "mcd": {"dw": rng.choice(["1e-9", "0.5e-9"]), "por": rng.choice(["0.3", "0.2"]), "lim": rng.choice(["0.05", "0.0"])},
+            "implicit": None, "solids": "exchange", "exch": exch,
+            "interlayer": {"por": rng.choice(["0.09", "0.05", "0.15"]), "lim": "0.01", "tort": rng.choice(["150", "50", "300"])},
+            "variant": "interlayer_partial" if len(exch) < n else "interlayer", "sols": sols}
 
 
 def render(case, headings=None):
@@ -322,9 +377,14 @@ def render(case, headings=None):
             L.append(" C 1 CO2(g) -3.0")
     n = case["n"]
     if case.get("solids") == "exchange":
-        L.append("EXCHANGE 1-%d" % n)
-        L.append(" X 0.001")
-        L.append(" -equilibrate 1")
+        if case.get("exch"):
+            # per-cell exchanger amounts (cells not listed have no exchanger)
+            for i in sorted(case["exch"], key=int):
+                L += ["EXCHANGE %s" % i, " X %s" % case["exch"][i], " -equilibrate %s" % i]
+        else:
+            L.append("EXCHANGE 1-%d" % n)
+            L.append(" X 0.001")
+            L.append(" -equilibrate 1")
     if case.get("solids") == "calcite":
         L.append("EQUILIBRIUM_PHASES 1-%d" % n)
         L.append(" Calcite 0 0.001")
@@ -388,7 +448,12 @@ def render(case, headings=None):
         else:
             L.append(" -stagnant %d" % st["n"])
     if case.get("mcd"):
-        L.append(" -multi_d true %s %s 0.0 1.0" % (case["mcd"]["dw"], case["mcd"]["por"]))
+        L.append(" -multi_d true %s %s %s 1.0" % (case["mcd"]["dw"], case["mcd"]["por"], case["mcd"].get("lim", "0.0")))
+        if case.get("pors"):
+            L.append(" -porosities " + " ".join(case["pors"]))
+    if case.get("interlayer"):
+        il = case["interlayer"]
+        L.append(" -interlayer_d true %s %s %s" % (il["por"], il["lim"], il["tort"]))
     if case.get("implicit"):
         L.append(" -implicit true %s" % case["implicit"]["maxmixf"])
     L.append("END")
@@ -424,7 +489,20 @@ def corpus():
               "sols": {"1": _s({"Ca": "0.05", "Cl": "0.1"}), "2": _s({"Ca": "0.02", "Cl": "0.04"}),
                        "3": _s({"K": "0.3", "Br": "0.3"}), "4": _s({"Ca": "0.07", "Cl": "0.14"}),
                        "5": _s({"Li": "0.1", "Cl": "0.1"}), "6": _s({"Ca": "0.0091", "Cl": "0.0182"})}}
-    return [base, second, third, fourth]
+    # [4] seeded change C11d (rc2 -> rc1 in find_J's receiving-cell block): interlayer diffusion between cells with
+    #     different exchanger amounts; the unchanged code conserves Na, K, Ca to 1e-13
+    A = {"water": "1", "pH": "7", "el": {"Na": "10", "Cl": "10", "K": "1", "Br": "1"}}
+    B = {"water": "1", "pH": "7", "el": {"Na": "1", "Cl": "3", "Ca": "1"}}
+    fifth = {"kind": "transport", "n": 6, "shifts": 5, "flow": "diffusion_only", "bc": [2, 2], "lengths": ["0.01"], "disps": ["0"],
+             "diffc": "0", "timest": "3600", "correct_disp": False, "stag": None,
+             "mcd": {"dw": "1e-9", "por": "0.3", "lim": "0.05"}, "implicit": None, "solids": "exchange", "variant": "interlayer",
+             "interlayer": {"por": "0.09", "lim": "0.01", "tort": "150"},
+             "exch": {"1": "0.05", "2": "0.05", "3": "0.2", "4": "0.2", "5": "0.2", "6": "0.2"},
+             "sols": {"1": A, "2": A, "3": B, "4": B, "5": B, "6": B}}
+    # [5] exchanger only in cells 3-6 (cells 1-2 get the automatic 2e-10 mol X): before the repair of find_J the exchange
+    #     species of an interlayer-off pair diffused as pore-water solutes and K, Ca were created (K 0.0020 -> 0.0189 mol)
+    sixth = dict(fifth, exch={"3": "0.2", "4": "0.2", "5": "0.2", "6": "0.2"}, variant="interlayer_partial")
+    return [base, second, third, fourth, fifth, sixth]
 
 
 HEADS = ["cell", "step", "state", "water", "H", "O", "cb"] + ["m_" + e for e in ELEMENTS] + ["c_" + e for e in ELEMENTS]
